@@ -34,7 +34,7 @@ def run(tier, replay):
     import json
     d = os.path.join(work, "gen")
     os.makedirs(d)
-    V.run([bins["strtab"], d, "d.c1", "a", "a_1", "d", "c1"])
+    V.run([bins["strtab"], d, "d.c1", "a", "a_1", "d", "c1", "b", "b_1", "_id", "_id_"])
     V.stage_spec(d, V.PURE_SPECS + ["Database.tla", "MCDatabase.tla", "MCDatabase.cfg", "GenDatabase.tla", "GenDatabase.cfg"])
     json.dump({"big": tier == "thorough", "depth": 2 if tier == "quick" else 3}, open(os.path.join(d, "mcparams.json"), "w"))
     r = V.tlc(d, "GenDatabase.tla", cfg="GenDatabase.cfg", timeout=3000)
